@@ -181,6 +181,11 @@ type c13Case struct {
 	NilChecker bool `json:"nilChecker,omitempty"`
 	// Overrides: stored field name -> name the checker is asked about (PersistContext.WithFieldOverrides / NewMappedFieldChecker)
 	Overrides map[string]string `json:"overrides,omitempty"`
+	// ParentOverrides (with ViaCtx and Overrides): two levels, as for an entity of a child store. The child's context
+	// sets Overrides, then hands its checker to the context of the parent part (what GetParentContext does), which
+	// sets ParentOverrides; both buckets hold fields of the same names. Each level is judged with its own overrides
+	// (the parent's on top of the child's), and the child's are not changed by what the parent level added
+	ParentOverrides map[string]string `json:"parentOverrides,omitempty"`
 	// codec
 	ListA [][]byte `json:"listA,omitempty"`
 	ListB [][]byte `json:"listB,omitempty"`
@@ -415,6 +420,22 @@ func genC13(t *rapid.T) c13Case {
 			for _, f := range c.Fields {
 				if rapid.Bool().Draw(t, "selOv_"+f.Name) {
 					c.Selected = append(c.Selected, "public-"+f.Name)
+				}
+			}
+			if c.ViaCtx && rapid.Bool().Draw(t, "twoLevels") {
+				c.ParentOverrides = map[string]string{}
+				for i, f := range c.Fields {
+					switch rapid.IntRange(0, 3).Draw(t, fmt.Sprintf("pov%d", i)) {
+					case 0:
+						c.ParentOverrides[f.Name] = "api-" + f.Name
+					case 1:
+						c.ParentOverrides[f.Name] = c.Fields[(i+1)%len(c.Fields)].Name
+					}
+				}
+				for _, f := range c.Fields {
+					if rapid.IntRange(0, 2).Draw(t, "selPov_"+f.Name) == 0 {
+						c.Selected = append(c.Selected, "api-"+f.Name)
+					}
 				}
 			}
 		}
@@ -812,6 +833,10 @@ func runC13Inner(c c13Case) kit.Result {
 			}
 			return b.GetError()
 		})
+		if err == nil && c.ViaCtx && c.ParentOverrides != nil {
+			res.Classes = append(res.Classes, "overrides-at-two-levels")
+			return runC13TwoLevels(c, sel, db, res)
+		}
 		if err == nil {
 			err = db.DB.Update(func(tx *bbolt.Tx) error {
 				b := boltz.GetOrCreatePath(tx, "root", "ent")
@@ -957,6 +982,80 @@ func runC13Inner(c c13Case) kit.Result {
 		}
 		res.NonTrivial = true
 	}
+	return res
+}
+
+// runC13TwoLevels: see c13Case.ParentOverrides. The parent part lives in root/ent, the child part in root/ent/ext; both
+// were (parent) or are now (child) initialised with every field's first value.
+func runC13TwoLevels(c c13Case, sel boltz.MapFieldChecker, db *kit.RawDB, res kit.Result) kit.Result {
+	childMap, parentMap := map[string]string{}, map[string]string{}
+	for k, v := range c.Overrides {
+		childMap[k] = v
+	}
+	for k, v := range c.ParentOverrides {
+		parentMap[k] = v
+	}
+	err := db.DB.Update(func(tx *bbolt.Tx) error {
+		pb := boltz.GetOrCreatePath(tx, "root", "ent")
+		cb := pb.GetOrCreatePath("ext")
+		for _, f := range c.Fields {
+			writeField(cb, f.Name, f.V, nil)
+		}
+		if cb.HasError() {
+			return cb.GetError()
+		}
+		ctx := &boltz.PersistContext{Bucket: cb, FieldChecker: sel}
+		ctx.WithFieldOverrides(childMap)
+		pctx := &boltz.PersistContext{Bucket: pb, FieldChecker: ctx.FieldChecker} // as GetParentContext does
+		pctx.WithFieldOverrides(parentMap)
+		for _, f := range c.Fields {
+			writeFieldCtx(pctx, f.Name, f.V2)
+		}
+		for _, f := range c.Fields {
+			writeFieldCtx(ctx, f.Name, f.V2)
+		}
+		if pb.HasError() {
+			return pb.GetError()
+		}
+		return cb.GetError()
+	})
+	if err != nil {
+		res.Err = fmt.Errorf("writing failed: %v", err)
+		return res
+	}
+	through := func(m map[string]string, name string) string {
+		if o, ok := m[name]; ok {
+			return o
+		}
+		return name
+	}
+	_ = db.DB.View(func(tx *bbolt.Tx) error {
+		pb := boltz.Path(tx, "root", "ent")
+		cb := boltz.Path(tx, "root", "ent", "ext")
+		for _, f := range c.Fields {
+			_, childOn := sel[through(c.Overrides, f.Name)]
+			_, parentOn := sel[through(c.Overrides, through(c.ParentOverrides, f.Name))]
+			for _, lv := range []struct {
+				what string
+				b    *boltz.TypedBucket
+				on   bool
+			}{{"parent part", pb, parentOn}, {"child part", cb, childOn}} {
+				want := f.V
+				if lv.on {
+					want = f.V2
+				}
+				if d := checkField(lv.b, f.Name, want); d != "" {
+					res.Err = fmt.Errorf("field checker selecting %v; the child's context set the overrides %v, the parent's context (given the child's checker) then set %v. %s, field %s (selected there: %v): %s", c.Selected, c.Overrides, c.ParentOverrides, lv.what, f.Name, lv.on, d)
+					return nil
+				}
+			}
+		}
+		// the maps handed to WithFieldOverrides are the caller's: they are what they were
+		if fmt.Sprint(childMap) != fmt.Sprint(c.Overrides) || fmt.Sprint(parentMap) != fmt.Sprint(c.ParentOverrides) {
+			res.Err = fmt.Errorf("WithFieldOverrides changed a map it was handed: child %v -> %v, parent %v -> %v", c.Overrides, childMap, c.ParentOverrides, parentMap)
+		}
+		return nil
+	})
 	return res
 }
 
